@@ -869,6 +869,22 @@ pub(crate) mod verif_hooks {
     use scylla_cql::frame::response::result::PreparedMetadata;
     use scylla_cql::serialize::row::SerializedValues;
 
+    /// A prepared statement with the given metadata (id "id", text "q", default configuration).
+    pub(crate) fn new_statement(
+        metadata: PreparedMetadata,
+        result_metadata: std::sync::Arc<scylla_cql::frame::response::result::ResultMetadata<'static>>,
+    ) -> super::PreparedStatement {
+        super::PreparedStatement::new(
+            bytes::Bytes::from_static(b"id"),
+            false,
+            metadata,
+            result_metadata,
+            "q".to_owned(),
+            Default::default(),
+            Default::default(),
+        )
+    }
+
     /// `None` = partition key extraction failed.
     pub(crate) fn pk_token(
         meta: &PreparedMetadata,
